@@ -46,7 +46,14 @@ def gen(rng, ctx):
     nodes = [n for n, _, _ in cd["nodes"]]
     lists = [rng.sample(nodes, rng.randint(1, min(4, len(nodes)))) for _ in range(3)]
     singles = rng.sample(nodes, min(4, len(nodes)))
-    return {"c": cd, "kind": kind, "lists": lists, "singles": singles, "k": rng.randint(1, 4), "via": rng.choice(["graph", "graph", "api"])}
+    if rng.random() < 0.3:
+        cd = G.shuffle_nodes(rng, cd)
+    edit = None
+    if rng.random() < 0.35:
+        # in-place edit between two rounds of queries on the SAME Circuit object (stale caches)
+        plain = [n for n in nodes if "." not in n]
+        edit = rng.choice([["relabel", rng.choice(plain)], ["add_node", rng.choice(plain)], ["remove", rng.choice(plain)], ["connect", rng.choice(plain), rng.choice(plain)]])
+    return {"c": cd, "kind": kind, "lists": lists, "singles": singles, "k": rng.randint(1, 4), "via": rng.choice(["graph", "graph", "api"]), "edit": edit}
 
 
 def check(case, ctx):
@@ -54,19 +61,50 @@ def check(case, ctx):
     cd = case["c"]
     via = case["via"] if "cyclic" not in case["kind"] else "graph"
     c = G.build(cg, cd, via)
+    queries(case, ctx, c, case["singles"], case["lists"])
+    ed = case.get("edit")
+    if not ed:
+        return
+    # second round on the same object after an in-place edit through the public API / raw graph
+    ren = {}
+    try:
+        if ed[0] == "relabel":
+            ren = {ed[1]: ed[1] + "_rl"}
+            c.relabel(ren)
+        elif ed[0] == "add_node":
+            c.add("zz_new", "buf", fanin=ed[1], output=True)
+        elif ed[0] == "remove":
+            c.remove(ed[1])
+        else:
+            c.connect(ed[1], ed[2])
+    except Exception:  # noqa: BLE001 - an edit the library refuses is not the subject here
+        return
+    ctx.count(f"requery_after:{ed[0]}")
+    live = set(c.graph.nodes)
+    f = lambda n: ren.get(n, n)
+    singles = [f(n) for n in case["singles"] if f(n) in live]
+    lists = [[f(n) for n in l if f(n) in live] for l in case["lists"]]
+    lists = [l for l in lists if l]
+    if singles:
+        queries(case, ctx, c, singles, lists, phase="after_edit:")
+
+
+def queries(case, ctx, c, singles, lists, phase=""):
+    cg = ctx.cg
     net = Net.of(c)
     preds, succs = net.preds, net.succs
     types = net.types
-    if len(types) < 4 or len(cd["edges"]) < 3:
+    if len(types) < 4 or len(net.edges()) < 3:
         ctx.trivial()
-    ctx.count(f"class:{case['kind']}")
+    if not phase:
+        ctx.count(f"class:{case['kind']}")
     cyc = D.has_cycle(succs)
     viol = ctx.violation
 
     def cmp(op, got, want, arg=None):
         ctx.count(f"cmp:{op}")
         if got != want:
-            viol(op, f"{op}({arg!r}) returned {sorted(got) if isinstance(got, (set, frozenset)) else got!r}, definition gives {sorted(want) if isinstance(want, (set, frozenset)) else want!r}")
+            viol(phase + op, f"{phase}{op}({arg!r}) returned {sorted(got) if isinstance(got, (set, frozenset)) else got!r}, definition gives {sorted(want) if isinstance(want, (set, frozenset)) else want!r}")
 
     # is_cyclic
     ok, r = ctx.call(c.is_cyclic)
@@ -78,7 +116,7 @@ def check(case, ctx):
 
     sp_all = {n for n, t in types.items() if t in ("input", "bb_output")}
     ep_all = set(net.outputs) | {n for n, t in types.items() if t == "bb_input"}
-    args = [(n, [n]) for n in case["singles"]] + [(l, l) for l in case["lists"]]
+    args = [(n, [n]) for n in singles] + [(l, l) for l in lists]
     for arg, ns in args:
         a = arg if isinstance(arg, str) else list(arg)
         tag = "1" if isinstance(arg, str) else "L"
@@ -168,7 +206,7 @@ def check(case, ctx):
     # kcuts
     if not cyc:
         k = case["k"]
-        for n in case["singles"][:3]:
+        for n in singles[:3]:
             ok, r = ctx.call(c.kcuts, n, k)
             if not ok:
                 viol("kcuts", f"kcuts({n!r},{k}) raised {r!r}")
@@ -189,5 +227,5 @@ def check(case, ctx):
 
 
 def gates(counters, table, tier):
-    need = ["class:dag", "class:dag+bb", "class:cyclic", "cmp:levelize", "cmp:kcuts", "reconv:nonempty", "reconv:empty", "cmp:depth_rejects_cyclic", "cmp:fanout_depthL", "cmp:fanin_depth1", "kcuts:nontrivial_sets"]
+    need = ["requery_after:relabel", "requery_after:connect", "class:dag", "class:dag+bb", "class:cyclic", "cmp:levelize", "cmp:kcuts", "reconv:nonempty", "reconv:empty", "cmp:depth_rejects_cyclic", "cmp:fanout_depthL", "cmp:fanin_depth1", "kcuts:nontrivial_sets"]
     return [f"class {k} never observed" for k in need if counters.get(k, 0) < 5]
